@@ -336,7 +336,7 @@ def programs_for(cell):
                     yield body
     elif fam == "F3":
         b = cell["b"]
-        for c in range(n):
+        for c in REDUCED:
             for fk in (0, 1, 2, 3):
                 yield [("with", a, [("with", b, [("with", c, [("raise", fk)] if fk else [])])])]
             yield [("with", a, [("with", b, []), ("with", c, [])])]
@@ -458,7 +458,8 @@ def main(ctx):
     for gname, g in coupled.items():
         cells += [{"fam": "Fgroup", "a": a, "group": g, "depth": 4 if thorough else 3, "gname": gname} for a in g]
     if thorough:
-        cells += [{"fam": "F3", "a": a, "b": b} for a in range(n) for b in range(n)]
+        # all nested triples over the reduced alphabet (two tokens per class): ~90^3 x 5 fault placements
+        cells += [{"fam": "F3", "a": a, "b": b} for a in REDUCED for b in REDUCED]
     ctx.map("run_cell", cells, chunksize=1 if not thorough else 16)
     states = ctx.states
     ctx.extra.update(tokens=n, classes=len(CLASSES), programs=ctx.notes["programs"],
